@@ -4,6 +4,7 @@
     no garbage.  Lemma file. *)
 From Coq Require Import List NArith ZArith Lia Bool Arith.
 From Mast Require Import Prim Key Tree KeyOrder Codec Store Diff Erase Build Spec Canon Links Level Inv Persist Hist Reload DiffSpec DiffLinks.
+From Mast Require Import ReloadB.
 Import ListNotations.
 
 Opaque name_of blake2b_256 b64url crc64 uint_layer_fuel.
